@@ -299,7 +299,7 @@ class Evaluator:
             return Obj(t, {n: self.symbolic(ft, prefix + "." + n, q) for n, ft in fs})
         if t in self.F.enums:
             return ("enumsym", t, prefix)
-        m = re.match(r"std::vector<(.+), std::allocator<.+> >$", t)
+        m = re.match(r"std::vector<(.+), std::allocator<.+> ?>$", t)
         if m:
             return Obj(t, {"_M_elems": Arr([self.symbolic(m.group(1), "%s[%d]" % (prefix, i), qtype) for i in range(3)])})
         if t.startswith("std::basic_string<char") or t.startswith("std::basic_string_view<char"):
